@@ -255,7 +255,7 @@ func (c *Ctx) RuleUpd() []*Result {
 			})
 		}
 	}
-	return []*Result{validator, api, guard, found, version, c.RuleBuildVars()}
+	return []*Result{validator, api, guard, found, version, c.RuleBuildVars(), c.RuleUpdArgs(), c.RuleChecksumName(), inPkg(c.RuleShadowParam(), 0, "internal/updater", "repository")}
 }
 
 // configFields reads the fields of a struct literal passed by value.
